@@ -1,5 +1,23 @@
-/- Line-protocol handler for C05 (stub until the model exists). -/
-import NoulithModel.Common
+/- Line-protocol handler for C05: `run <fuel> <sexp…>` evaluates a core-language program in a fresh
+interpreter and answers `<outcome> out=<hex of printed output>` (twice: the reference semantics is the
+model itself for this property). -/
+import NoulithModel.Driver.CoreSexp
+
 namespace Noulith.DriverC05
-def handle (_args : List String) : String := "bad-op"
+open Noulith Noulith.Core
+
+def render (r : Res × State) : String :=
+  let outText := String.join (r.2.out.reverse.map (· ++ "\n"))
+  canonRes r.1 ++ " out=" ++ hexOfString outText
+
+def handle (args : List String) : String :=
+  match args with
+  | "run" :: fuel :: rest =>
+    match fuel.toNat?, readExpr rest with
+    | some f, some e =>
+      let r := render (runProgram f e)
+      r ++ "\t" ++ r
+    | _, _ => "bad-op"
+  | _ => "bad-op"
+
 end Noulith.DriverC05
